@@ -605,7 +605,7 @@ func checkBytesCase(c bytesCase) ev.Outcome {
 
 func init() {
 	ev.Define("fault_enum", ev.Options{
-		Rule:  "one Case = one valid encoding (library encoder on a generated Point/Cap/Rect/CellID/Cell/CellUnion/Polyline/Loop/Polygon, lossless and compressed); the Check enumerates deterministically, via an independent field model of the formats, every count field × {0,1,n±1,n+2,255,2^16,2^20,limit+1,limit+2,2·limit,2^25,2^31−1,2^31,2^32−1,2^32,2^32+1,2^40,2^45,2^48,2^60,2^63−1,2^63,2^63+1,2^64−2,2^64−1; limit−1 and limit on the first count field of 1 case in 200 (quick) / 400 (thorough); other within-limit constants are capped at 2^16} (+ overlong / maximal / overflowing / 11-byte raw varints), every version byte × {0..5,127,128,255}, snap level × {0,1,8,9,29,30,31,64,255}, the first 3 and the last float / cell id / varint / byte field of each name × hostile values (NaN, ±Inf, denormal, 1e308; invalid ids; 2^63, 2^64−1 …), truncation before and inside every field, trailing garbage. Oracles: no panic / hang / abort; over-limit count ⇒ error with < 64 MiB allocated; truncated / bad version / bad varint ⇒ error; a nil error ⇒ the value survives validator, edges, chains, bounds, containment, re-encoding and re-decoding. Non-trivial = at least one enumerated input got past the version byte and reached a count field (fixed-layout types: is not a plain valid encoding). Counts 'class …' give the per-input histogram.",
+		Rule:  "one Case = one valid encoding (library encoder on a generated Point/Cap/Rect/CellID/Cell/CellUnion/Polyline/Loop/Polygon, lossless and compressed); the Check enumerates deterministically, via an independent field model of the formats, every count field × {0,1,n±1,n+2,255,2^16,2^20,limit+1,limit+2,2·limit,2^25,2^31−1,2^31,2^32−1,2^32,2^32+1,2^40,2^45,2^48,2^60,2^63−1,2^63,2^63+1,2^64−2,2^64−1; limit−1 and limit on the first count field of 1 case in 200 (quick) / 400 (thorough); other within-limit constants are capped at 2^16} (+ overlong / maximal / overflowing / 11-byte raw varints), every version byte × {0..5,127,128,255}, snap level × {0,1,8,9,29,30,31,64,255}, the first 3 and the last float / cell id / varint / byte field of each name × hostile values (NaN, ±Inf, denormal, 1e308; invalid ids; 2^63, 2^64−1 …), truncation before and inside every field, trailing garbage. Oracles: no panic / hang / abort; over-limit count ⇒ error with < 64 MiB allocated; truncated / bad version / bad varint ⇒ error; a nil error ⇒ the value survives validator, edges, chains, bounds, containment, re-encoding and re-decoding; the first 6 loops of a decoded polygon (Loop(i)) are queried as Regions and Shapes of their own too. Non-trivial = at least one enumerated input got past the version byte and reached a count field (fixed-layout types: is not a plain valid encoding). Counts 'class …' give the per-input histogram.",
 		Quick: 1200, Thorough: 24000, Journal: true}, genEnumCase, checkFaultEnum)
 	ev.Define("prefix_enum", ev.Options{
 		Rule:  "one Case = one valid encoding; EVERY strict prefix is decoded (alternating reader kinds); the formats are self-delimiting so each must return an error, without panic. Non-trivial = non-empty encoding.",
